@@ -5,6 +5,8 @@ pub mod c02;
 pub mod c03;
 pub mod c04;
 pub mod c05;
+pub mod c06;
+pub mod c09;
 
 pub fn dispatch(ctx: &mut Ctx) -> bool {
     match ctx.prop.clone().as_str() {
@@ -13,6 +15,8 @@ pub fn dispatch(ctx: &mut Ctx) -> bool {
         "C03" => c03::run(ctx),
         "C04" => c04::run(ctx),
         "C05" => c05::run(ctx),
+        "C06" => c06::run(ctx),
+        "C09" => c09::run(ctx),
         _ => return false,
     }
     true
